@@ -16,8 +16,10 @@ import (
 
 // Bar represents a progress bar.
 type Bar struct {
-	index        int // used by heap
-	priority     int // used by heap
+	index        int  // used by heap
+	priority     int  // used by heap
+	relieved     bool // used by container: final state is flushed, queued bars are let in
+	lastPriority int  // used by container: priority at that time
 	frameCh      chan *renderFrame
 	operateState chan func(*bState)
 	container    *Progress
